@@ -52,6 +52,9 @@ def configs(tier, seed):
                 cfgs.append(dict(name=f"samples {tag}{r}", kind="samples", rat=rat, dim=0, **base))
                 cfgs.append(dict(name=f"function {tag}{r}", kind="function", rat=rat, dim=(i % 3 == 0) * 2 * (not rat), **base))
             cfgs.append(dict(name=f"default nodes {tag}", kind="default", rat=False, dim=0, **base))
+    # a case whose exact normal equations need integers beyond 64 bits
+    cfgs.append(dict(name="samples p=1 mults=[2, 1, 1, 1, 2] vals=['1', '5/4', '2', '7/2', '4'] rat (big integers)", kind="samples",
+                     rat=True, dim=0, p=1, mults=[2, 1, 1, 1, 2], vals=['1', '5/4', '2', '7/2', '4']))
     cfgs.append(dict(name="too few points", kind="few"))
     return cfgs
 
